@@ -635,3 +635,35 @@ Proof.
   apply (approximate_bezier_R_returns _ 2); [discriminate| |lra|cbn [pow]; lra].
   cbn [map fst snd]. rewrite !dd_cons3. constructor; [|constructor]. lra.
 Qed.
+
+(* ---------- the convex-hull property ----------
+   every point of the curve is a convex combination of the control points:
+   whatever closed half-plane / strip  | u . p - c | <= delta  contains all
+   control points contains the curve *)
+Theorem bezier_convex_hull (P : list RP) n ux uy c delta t :
+  length P = S n -> 0 <= t <= 1 ->
+  (forall p, In p P -> Rabs (ux * fst p + uy * snd p - c) <= delta) ->
+  Rabs (ux * fst (Bez P t) + uy * snd (Bez P t) - c) <= delta.
+Proof.
+  intros Hlen Ht Hall.
+  set (Q := fun x y (_ : R) => Rabs (x - c * y) <= delta * y).
+  assert (HF : F3 Q (map (proj ux uy) P) (ap 1 0 (S n)) (ap 1 0 (S n))).
+  { apply (F3_of_nth _ (S n)); [rewrite map_length; exact Hlen|apply ap_length|apply ap_length|].
+    intros i Hi. unfold Q. rewrite (map_nth' zeroRR 0 (proj ux uy) (proj_zero ux uy)), ap_nth by exact Hi.
+    replace (1 + INR i * 0) with 1 by ring. rewrite !Rmult_1_r.
+    apply Hall. apply nth_In. rewrite <- Hlen in Hi. exact Hi. }
+  assert (Qc : forall s a b c0 a' b' c0', 0 <= s <= 1 -> Q a b c0 -> Q a' b' c0' ->
+               Q (comb s a a') (comb s b b') (comb s c0 c0')).
+  { unfold Q, comb. intros s a b _ a' b' _ Hs H1 H2.
+    replace ((1 - s) * a + s * a' - c * ((1 - s) * b + s * b'))
+      with ((1 - s) * (a - c * b) + s * (a' - c * b')) by ring.
+    eapply Rle_trans; [apply Rabs_triang|]. rewrite !Rabs_mult.
+    rewrite (Rabs_pos_eq (1 - s)), (Rabs_pos_eq s) by lra.
+    replace (delta * ((1 - s) * b + s * b')) with ((1 - s) * (delta * b) + s * (delta * b')) by ring.
+    apply Rplus_le_compat; apply Rmult_le_compat_l; lra. }
+  assert (Q0 : Q 0 0 0) by (unfold Q; rewrite Rmult_0_r, Rminus_0_r, Rabs_R0; lra).
+  pose proof (F3_dc Q Qc Q0 t n Ht _ _ _ HF) as H. unfold Q in H.
+  rewrite dc_ap, (dc_proj ux uy n t P Ht) in H.
+  unfold Bez. rewrite Hlen. cbn [pred fst snd].
+  replace (1 + INR n * (t * 0)) with 1 in H by ring. rewrite !Rmult_1_r in H. exact H.
+Qed.
